@@ -102,7 +102,7 @@ def run(c):
     rt.replay_witnesses(c, oracle)
     cases, dis, stats = rt.run_rt(c, oracle, n, k, gen_hist=rt.flushing(hrt.gen_history),
                                   known_classifier=rt.known_by(c, [('F9', rt.f9_territory)]))
-    rt.decide(c, ob, dis)
+    rt.decide(c, ob, dis, oracle=oracle, known_classifier=rt.known_by(c, [('F9', rt.f9_territory)]))
     if c.tier == 'thorough' and ob['ok']:
         ok, log = c.leanchecker(['BVM.Props.C06'])
         if not ok:
